@@ -682,9 +682,43 @@ def _observe(obj, rw):
         ACCESS_OBSERVER(obj, rw, sys._getframe(2))
 
 
+import re as _re
+
+
+def _re_dispatch(name, pattern, a, k):
+    """re.<name>(pattern, ...) / compiled.<name>(...) with a symbolic subject string -> sx.symre"""
+    from . import symre
+    idx = 1 if name in ("sub", "subn") else 0
+    subject = a[idx] if len(a) > idx else k.get("string")
+    if not isinstance(subject, (SymStr, SymChar)):
+        return NotImplemented
+    if isinstance(subject, SymChar):
+        subject = SymStr([subject])
+    fn = symre.API.get(name)
+    if fn is None:
+        raise Unsupported("re.%s on a symbolic string" % name)
+    kk = dict(k)
+    kk.pop("string", None)
+    if name in ("sub", "subn"):
+        return fn(pattern, a[0], subject, *a[2:], **kk)
+    return fn(pattern, subject, *a[1:], **kk)
+
+
+for _n in ("sub", "subn", "match", "fullmatch", "search", "findall", "split", "finditer"):
+    def _mk(_n=_n):
+        def h(pattern, *a, **k):
+            return _re_dispatch(_n, pattern, a, k)
+        return h
+    INTRINSICS[getattr(_re, _n)] = _mk()
+
+
 def sx_call(f, *a, **k):
     if ACCESS_OBSERVER is not None and type(f) is _BuiltinMethod:
         _observe(f.__self__, "w" if f.__name__ in _MUTATORS else "r")
+    if type(f) is _BuiltinMethod and type(f.__self__) is _re.Pattern and _anysym(a):
+        r = _re_dispatch(f.__name__, f.__self__, a, k)
+        if r is not NotImplemented:
+            return r
     try:
         h = INTRINSICS.get(f)
     except TypeError:
